@@ -170,6 +170,20 @@ CLAIMED = {
             '1..5-call histories (incl. stored filters, tuple lists) are projected to comparison classes and replayed by TLC.',
             'Trusted: the realisation of abstract values in vh/drivers/c04.py and exact Python comparisons for the classes.',
             '5/C04'),
+    'C11': ('TLA+ specs of the forecast-file loader (ForecastFile.tla: first-appearance unique cells / magnitudes, reshape; '
+            'lattice semantics from Grid2D.tla) and of scaling (GriddedData.tla) model-checked by TLC; every abstract file '
+            'written to disk and loaded by the real loaders; scaling histories validated by TLC (TraceGriddedData)',
+            'TLC checks LookupMatchesRow, MagsAreLowerEdges, FlagZeroOutside, NoRateLost for every lattice subset up to 2x2 '
+            '(quick) / 3x2 (thorough) x 3 cell orders x 1..M magnitude bins x <=1 flagged cell, and ScaleAbsolute, ScaleLinear, '
+            'MarginalsSumToTotal for all histories of <= 4 scale / scale_to_test_date calls (cumulative variant refuted). Each '
+            'abstract file is written as decimal text on an anchor/spacing/magnitude table in lon/lat and lat/lon column order, '
+            'loaded with csep.load_gridded_forecast, and polygon order, magnitudes, flags, the data matrix and get_rates at '
+            'lower corners / interiors / near upper edges / above the top magnitude must equal the TLC cell map and rates; '
+            'quadtree ascii and csv files likewise. Random histories of up to 30 scale / scale_to_test_date (inside and outside '
+            'the period, naive and aware) / read calls are replayed by TLC on factor identifiers.',
+            'Trusted: the .dat / quadtree writers and the independent elapsed-fraction computation in vh/drivers/c11.py. '
+            'Lookups in tolerance bands are C01/C02 territory.',
+            '5/C11'),
 }
 
 NOT_YET = 'check not built yet in this round (specification planned in DESIGN.md section 5); not claimed until it exists'
